@@ -403,6 +403,61 @@ Proof.
   destruct (settled n'); [|apply Keeps_refl]. simpl. apply (resume_path_keeps _ _ _ _ _ E).
 Qed.
 
+(* the deferred report to a with-items parent *)
+Lemma Keeps_task_state c st info sent ts ti s k subs s' :
+  nth_error ts ti = Some (s, k, subs) ->
+  Keeps c (mkN st info sent ts) (mkN st info sent (upd ti (fun _ => (s', k, subs)) ts)).
+Proof.
+  intro Ht. unfold Keeps. simpl. constructor; [apply keeps_refl|].
+  rewrite (flat_map_upd _ _ _ _ _ Ht); [apply Forall2_refl, keeps_refl|reflexivity].
+Qed.
+
+Lemma up_pause_keeps c n0 st info sent ts ti s k subs :
+  (forall s', Keeps c n0 (mkN st info sent (upd ti (fun _ => (s', k, subs)) ts))) ->
+  Keeps c n0 (fst (up_pause st info sent ts ti s k subs)).
+Proof. intro H. unfold up_pause. cbv zeta. cbn [fst]. eapply Keeps_trans; [apply H|apply pause_down_keeps]. Qed.
+
+Lemma up_resume_keeps c n0 st info sent ts ti s k subs :
+  (forall s', Keeps c n0 (mkN st info sent (upd ti (fun _ => (s', k, subs)) ts))) ->
+  Keeps c n0 (fst (up_resume st info sent ts ti s k subs)).
+Proof.
+  intro H. unfold up_resume. cbv zeta.
+  match goal with |- context [if any_task_paused ?b then _ else _] => destruct (any_task_paused b) end; cbn [fst]; [apply H|].
+  eapply Keeps_trans; [apply H|apply resume_down_keeps].
+Qed.
+
+Opaque up_pause up_resume.
+Lemma notify_path_keeps p : forall c n n' nt, notify_path p n = Some (n', nt) -> Keeps c n n'.
+Proof.
+  induction p as [|[ti si] rest IH]; intros c n n' nt H; cbn [notify_path] in H; [discriminate|].
+  destruct n as [st info sent ts]. unfold task in *.
+  destruct (nth_error ts ti) as [[[s k] subs]|] eqn:Et; [|discriminate].
+  destruct (nth_error subs si) as [x|] eqn:Es; [|discriminate].
+  destruct rest as [|q rest'].
+  - destruct (finished x); [injection H as <- _; apply Keeps_refl|].
+    destruct (state_eqb (nstate x) PAUSED).
+    + replace n' with (fst (up_pause st info sent ts ti s k subs)) by (now rewrite (f_equal fst (f_equal (fun o => match o with Some y => y | None => (n', nt) end) H))).
+      apply up_pause_keeps. intro s'. apply (Keeps_task_state c st info sent ts ti s k subs s' Et).
+    + destruct (is_running (nstate x)); [|injection H as <- _; apply Keeps_refl].
+      replace n' with (fst (up_resume st info sent ts ti s k subs)) by (now rewrite (f_equal fst (f_equal (fun o => match o with Some y => y | None => (n', nt) end) H))).
+      apply up_resume_keeps. intro s'. apply (Keeps_task_state c st info sent ts ti s k subs s' Et).
+  - destruct (notify_path (q :: rest') x) as [[x' nt']|] eqn:Ea; [|discriminate].
+    pose proof (fun s' => Keeps_subst c st info sent ts ti si s k subs x x' Et Es (IH true x x' nt' Ea) s') as K.
+    cbv zeta in H.
+    destruct nt', k;
+      try (injection H as <- _; apply K);
+      [replace n' with (fst (up_pause st info sent ts ti s Plain (upd si (fun _ => x') subs))) by (now rewrite (f_equal fst (f_equal (fun o => match o with Some y => y | None => (n', nt) end) H))); apply up_pause_keeps; exact K
+      |replace n' with (fst (up_resume st info sent ts ti s Plain (upd si (fun _ => x') subs))) by (now rewrite (f_equal fst (f_equal (fun o => match o with Some y => y | None => (n', nt) end) H))); apply up_resume_keeps; exact K].
+Qed.
+Transparent up_pause up_resume.
+
+Lemma notify_at_keeps p n : Keeps false n (fst (notify_at p n)).
+Proof.
+  unfold notify_at. destruct (in_class n); [|apply Keeps_refl].
+  destruct (notify_path p n) as [[n' u]|] eqn:E; [|apply Keeps_refl].
+  destruct (settled n'); [|apply Keeps_refl]. simpl. apply (notify_path_keeps _ _ _ _ _ E).
+Qed.
+
 (* a hand-off changes no workflow row at all *)
 Lemma deliver_path_rows p : forall c n n', deliver_path p n = Some n' -> rows c n' = rows c n.
 Proof.
@@ -427,7 +482,7 @@ Qed.
 
 Lemma apply_op_keeps n o : Keeps false n (apply_op n o).
 Proof.
-  destruct o; simpl; [apply stop_at_keeps|apply pause_at_keeps|apply resume_at_keeps|apply deliver_at_keeps].
+  destruct o; simpl; [apply stop_at_keeps|apply pause_at_keeps|apply resume_at_keeps|apply deliver_at_keeps|apply notify_at_keeps].
 Qed.
 
 (* whatever requests and hand-offs follow, in whatever order: finished executions keep state, message and number of
@@ -535,6 +590,20 @@ Proof.
   { destruct Hs as [H|H]; rewrite H; reflexivity. }
   rewrite E. reflexivity.
 Qed.
+
+(* the pause of ONE item's sub-workflow, once reported to the with-items parent task, comes down again: no execution
+   below the parent workflow is left RUNNING (siblings included), whatever the states of the tasks are *)
+Opaque pause_down.
+Theorem reported_pause_comes_down c st info sent ts ti si s k subs x n' nt :
+  nth_error ts ti = Some (s, k, subs) -> nth_error subs si = Some x -> nstate x = PAUSED ->
+  notify_path [(ti, si)] (mkN st info sent ts) = Some (n', nt) ->
+  forallb (fun r => negb (state_eqb (r_state r) RUNNING)) (rows c n') = true.
+Proof.
+  intros Et Es Hx H. cbn [notify_path] in H. unfold task in *. rewrite Et, Es in H.
+  unfold finished in H. rewrite Hx in H. cbn [is_completed mem existsb state_eqb orb] in H.
+  unfold up_pause in H. cbv zeta in H. injection H as <- _. apply pause_down_no_running.
+Qed.
+Transparent pause_down.
 
 (* the subtree of the execution named by the address *)
 Fixpoint subtree (p : path) (n : node) : option node :=
